@@ -62,7 +62,7 @@ def layouts(n):
     return S
 
 
-def build(system, rows, mom, struct, route, spelling, special=None):
+def build(system, rows, mom, struct, route, spelling, special=None, tag=""):
     """array with rich extra fields; `special` in (None, 'indexed', 'bytemasked', 'regular')"""
     import awkward as ak
 
@@ -84,13 +84,17 @@ def build(system, rows, mom, struct, route, spelling, special=None):
             return ak.unflatten(numpy.zeros(0, dtype=dtype or numpy.float64), [0] * len(struct))
         return ak.Array(awk.map_struct(struct, f))
     extras = {}
-    if not empty and any(isinstance(l, int) for l in awk.flat_leaves(struct)):
+    if tag:
+        extras = {"charge" + tag: col(lambda r: int(r % 5 + 10), numpy.int64)} if not empty else {"charge" + tag: ak.Array(numpy.zeros(0, dtype=numpy.int64))}
+    elif not empty and any(isinstance(l, int) for l in awk.flat_leaves(struct)):
         extras = {"charge": col(lambda r: int(r % 3 - 1)), "label": col(lambda r: f"trk{r}"),
                   "hits": col(lambda r: [float(r), float(r) + 0.5][: (r % 3)])}
     elif not empty:
         extras = {"charge": col(lambda r: int(r % 3 - 1), numpy.int64)}
     else:
         extras = {"charge": ak.Array(numpy.zeros(0, dtype=numpy.int64))}
+    if route == "Array" and tag:
+        route = "zip"
     if route == "Array":
         if empty:
             route = "zip"
@@ -214,7 +218,7 @@ def run_shard(spec, tier, seed):
                             a = list(plain)
                             for j in vecpos:
                                 col = [c[1][j] for c in cases]
-                                a[j], _ = build(s_other, [l.f64()[0] for l in col], col[0].momentum, struct, route, spelling, None)
+                                a[j], _ = build(s_other, [l.f64()[0] for l in col], col[0].momentum, struct, route, spelling, None, tag="_b")
                         except Exception as e:
                             res.inconc(f"cannot build layout {lname}/{route}: {type(e).__name__}: {e}"[:300])
                             continue
@@ -280,6 +284,18 @@ def run_shard(spec, tier, seed):
                                 if unknown:
                                     res.violation(f"C18/unknown-field-appeared op={op.name}", {"sig": sig, "fields": unknown})
                                 res.cell(cellbase, "extra-fields-carried")
+                            else:
+                                # a secondary vector argument (booster, rotation axis): whether self's extra fields are carried is
+                                # not stated, but the result must not pick up fields self does not have, carry a proper subset, or change them
+                                foreign = [f for f in extra_out if f not in extras_in]
+                                if foreign:
+                                    res.violation(f"C18/fields-of-the-secondary-operand-in-result op={op.name}", {"sig": sig, "fields": fo, "foreign": foreign})
+                                elif extra_out and sorted(extra_out) != sorted(extras_in):
+                                    res.violation(f"C18/only-some-extra-fields-carried op={op.name}", {"sig": sig, "fields": fo})
+                                for f in extra_out:
+                                    if f in extras_in and ak.to_list(out[f]) != extras_in[f]:
+                                        res.violation(f"C18/extra-field-changed op={op.name} layout={lname}", {"sig": sig, "field": f})
+                                res.cell(cellbase, "secondary-operand-fields")
                             # ---- record name: flavor and dimension as the object backend gives them
                             try:
                                 eo = E.eval_obj(op, cases[0][0], cases[0][1])
@@ -293,6 +309,49 @@ def run_shard(spec, tier, seed):
                                 res.cell(cellbase, "record-name")
                             except Exception:
                                 res.count("skip_object_reference_raised")
+                # ---- one-per-event broadcast against many-per-event: the result takes the deeper list structure
+                J = [[0, 1], [], [2, 3, 4], [5, 6, 7]]
+                jag_fp = repr(awk.skeleton(J))
+                try:
+                    flat_self, _ = build(s_self, [l.f64()[0] for l in selfs[:4]], selfs[0].momentum, [0, 1, 2, 3], "zip", 0, None, tag="_ev")
+                    a = list(plain)
+                    bro = None
+                    if vecpos and op.name not in SECONDARY:
+                        for j in vecpos:
+                            col = [c[1][j] for c in cases]
+                            a[j], _ = build(s_other, [l.f64()[0] for l in col], col[0].momentum, J, "zip", 0, None, tag="_b")
+                        bro = "flat x jagged vector"
+                    else:
+                        gi = next((j for j, k in enumerate(op.args) if k in sweep.GRID_KINDS), None)
+                        if gi is not None and not vecpos and op.group != "embedding":
+                            a[gi] = ak.Array(awk.map_struct(J, lambda i: float(cases[0][1][gi]) * (0.5 + 0.125 * (i % 3))))
+                            bro = "flat x jagged scalar"
+                    if bro:
+                        res.evaluations += 1
+                        out = op.call(flat_self, *a)
+                        if isinstance(out, ak.Array):
+                            probe = out[ak.fields(out)[0]] if ak.fields(out) else out
+                            got = repr(awk.skeleton(ak.to_list(probe)))
+                            if got != jag_fp:
+                                res.violation(f"C18/broadcast-result-does-not-take-the-deeper-structure op={op.name}",
+                                              {"how": bro, "got": got[:200], "expected": jag_fp, "type": str(out.type)[:200]})
+                            if op.result == "vec" and bro == "flat x jagged scalar":
+                                for f, vals in {f: ak.to_list(flat_self[f]) for f in ak.fields(flat_self) if f not in COORD_NAMES and f != "hits" and f != "label"}.items():
+                                    if f not in ak.fields(out):
+                                        res.violation(f"C18/extra-field-dropped op={op.name} layout=broadcast", {"missing": f})
+                                    else:
+                                        want = [[vals[li]] * len(lst) for li, lst in enumerate(J)]
+                                        if ak.to_list(out[f]) != want:
+                                            res.violation(f"C18/extra-field-not-broadcast-with-the-vectors op={op.name}",
+                                                          {"field": f, "got": repr(ak.to_list(out[f]))[:200], "expected": repr(want)[:200]})
+                            res.cell(f"{op.name}|broadcast|zip", "structure")
+                except Exception as e:
+                    try:
+                        E.eval_obj(op, cases[0][0], cases[0][1])
+                        res.violation(f"C18/operation-raises-on-layout layout=broadcast route=vector-constructor op={op.name}",
+                                      {"exc": f"{type(e).__name__}: {e}"[:300]})
+                    except Exception:
+                        pass
                 if len(res.samples) < 4:
                     res.sample({"op": op.name, "dim": dim, "system": R.sysname(s_self), "layouts": list(L), "example_type": str(v.type)[:160]})
     return res
